@@ -18,6 +18,16 @@ def eps_set(level):
     return [1e-6] if level == 0 else [1e-12, 1e-9, 1e-6, 1e-3]
 
 
+def exact_hits(xk, reach=6):
+    """the lowest and the highest double E with log(E * 1000.0) == xk exactly (glibc log, the expression the library uses), or []"""
+    c = math.exp(xk) / 1000.0
+    cand = [c]; up = dn = c
+    for _ in range(reach):
+        up = float(np.nextafter(up, np.inf)); dn = float(np.nextafter(dn, -np.inf)); cand += [up, dn]
+    hits = sorted(a for a in cand if a > 0 and math.log(a * 1000.0) == xk)
+    return [hits[0], hits[-1]] if hits else []
+
+
 class Energies:
     """per-element energy alphabet from the reference data: table ends and edges +- eps, specials"""
 
@@ -51,6 +61,14 @@ class Energies:
             for e in set(ed):
                 b = float("%.10E" % e)
                 pts |= {b, float(np.nextafter(b, np.inf)), float(np.nextafter(b, -np.inf))}
+            # the DUPLICATED abscissae of the cross-section tables (absorption edges as tabulated - not the edges.dat values - and the 1.0000047 keV seam)
+            # hit bit for bit: energies whose transform, computed as the library computes it, equals the knot exactly.  The interval search then meets
+            # x == xa[k] on a zero-width interval (0/0 if that case is not handled)
+            for t in (ph, ra, co):
+                if Z in t:
+                    x = np.array([float("%.10E" % v) for v in t[Z][0]])
+                    for k in np.nonzero(np.diff(x) == 0)[0]:
+                        pts |= set(exact_hits(float(x[k])))
             sed = sorted(ed)
             for a, b in zip(sed, sed[1:]):
                 pts.add(0.5 * (a + b))
